@@ -569,6 +569,11 @@ prop(
         # a 4 GiB call arriving on more than half a buffered block
         dict(what="hash:Skein512_64", len=(1 << 32) - 64),
         dict(what="hash:Groestl512", len=(1 << 32), pre=100),
+        # every family in one call of just over 2^32 bytes (a byte count of one call narrowed to 32 bits: seeded change C08-m)
+        dict(what="hash:Blake256", len=(1 << 32) + 192),
+        dict(what="hash:Blake224", len=(1 << 32) + 64, pre=3),
+        dict(what="hash:Jh224", len=(1 << 32) + 64, pre=1),
+        dict(what="hash:Skein256_32", len=(1 << 32) + 33),
         dict(what="hash:Skein256_32", len=(1 << 32) - 32, tiers=("thorough",)),
         dict(what="hash:Skein1024_128", len=(1 << 32) - 128, pre=128, tiers=("thorough",)),
         dict(what="hash:Blake512", len=(1 << 32) - 128, pre=127, tiers=("thorough",)),
@@ -769,10 +774,12 @@ prop(
     "two layers. (a) one case = one seeded run of the `interleave` world: root instances of all kinds (7 cipher types, block-API states, 33 hash types, 3 Threefish sizes incl. "
     "with_tweak and shared keys) in one thread, calls interleaved by the seeded scheduler at call granularity on a simulated host; afterwards every instance's own operations are "
     "replayed alone in a fresh world on a fresh thread and its transcript (per-instance event-log digest) must be identical; an inner check that fails only when interleaved is a violation too. "
-    "(b) one case = one cold process under a controlled scheduler: one of 105 enumerated thread workloads (2-4 threads released by a barrier) - 74 first-call workloads (ALL threads make the same kind of FIRST call, "
+    "(b) one case = one cold process under a controlled scheduler: one of 147 enumerated thread workloads (2-6 threads released by a barrier) - 74 first-call workloads (ALL threads make the same kind of FIRST call, "
     "the focus kind cycling over 37 operation kinds: hash types, ciphers, Threefish, block API and bulk calls of several KiB - so that threads race on whatever that call initialises lazily in a cold process; "
     "then repeats of identical calls / other entry points on private instances; in the bulk workloads the second and third thread call again while the first is still in its first call) "
-    "and 31 hammer workloads (three threads repeat one short call ten times alternating two arguments of their own) - runs in a "
+    "31 hammer workloads (three threads repeat one short call ten times alternating two arguments of their own), the hammer after 246 / 65526 constructions, and 11 mix workloads "
+    "(every thread on ANOTHER variant of one family: Jh x4, Groestl x4, BLAKE x4, five Skein configurations, four ChaCha variants, six Skein-1024 output lengths in long misaligned calls; thorough: two variants in 16 KiB calls; "
+    "'mix hammer': six Skein-1024 / five Skein-512 output lengths, eight short calls per thread, three rounds, four to ten preemption rates) - runs in a "
     "fresh Miri interpreter per (workload, scheduler seed, preemption rate); Miri's seeded scheduler decides every preemption, its data-race/deadlock detector is on, every result is compared with the "
     "sequential one-at-a-time expectation computed natively, and any other failure is re-run with the threads one after the other to decide whether it needs overlapping threads. distinct_nontrivial = distinct abstract states of layer (a) (kind of instance, history length class, op kind) + underlying scenarios",
     [
@@ -1082,7 +1089,11 @@ def classify_miri(out):
 
 
 NW_BASE = 74 + 31
-NW = NW_BASE + 31   # 2 x 37 first-call workloads + 31 "hammer" workloads + 31 "wrap" workloads (hammer after 65526 constructions)
+NW_MIX_FROM = NW_BASE + 31
+NMIX = 11
+MIX_THOROUGH = (6, 7, 8)   # two variants in 16 KiB calls: minutes of interpreter time each
+MIX_HAMMER = (9, 10)       # several output lengths of one Skein state size, eight short calls per thread
+NW = NW_MIX_FROM + NMIX   # 2 x 37 first-call workloads + 31 "hammer" workloads + 31 "wrap" workloads (hammer after 65526 constructions) + 11 "mix" workloads (every thread another variant of one family, long calls)
 
 
 def be_dirs():
@@ -1389,6 +1400,20 @@ def miri_jobs(tier, sd):
     if tier != "quick":
         for k in WRAP16_KINDS:
             jobs.append((NW_BASE + k, lo + 72000 + k, "0.2", 1, 65526))
+    # "mix" workloads: every thread makes one long misaligned call on ANOTHER variant of the same family (Jh224|Jh256|Jh384|Jh512,
+    # Groestl x4, BLAKE x4, five Skein configurations, four ChaCha variants, six Skein-1024 output lengths) - what the variants of
+    # one crate share per process is used by all of them at once; thorough adds two variants in 16 KiB calls (JH, Groestl, BLAKE).
+    # Both backends (the seed's parity selects the build).
+    for k in range(NMIX):
+        if k in MIX_THOROUGH and tier == "quick":
+            continue
+        if k in MIX_HAMMER:
+            # atomics only show in a schedule that mixes a reader with a recycling writer: several rates, three rounds each
+            mrates = ["0.2", "0.4", "0.6", "0.8"] if tier == "quick" else ["0.05", "0.1", "0.2", "0.3", "0.4", "0.5", "0.6", "0.7", "0.8", "0.9"]
+        else:
+            mrates = ["0.1", "0.3"] if tier == "quick" or k in MIX_THOROUGH else ["0.02", "0.1", "0.3", "0.6"]
+        for rep, rate in enumerate(mrates):
+            jobs.append((NW_MIX_FROM + k, lo + 80000 + 2 * (k * 11 + rep) + rep % 2, rate, 3 if k in MIX_HAMMER else 1, None))
     # which build runs a job: the portable backend (what cfg(miri) selects) or the x86 backend (overlay, AVX2 machine): the second
     # copy of the first-call workloads, every other hammer schedule and the wrap workloads run the x86 backend
     jobs = [j + ((MIRI_NOPS <= j[0] < 2 * MIRI_NOPS) or (j[0] >= 2 * MIRI_NOPS and j[1] % 2 == 1),) for j in jobs]
@@ -1408,7 +1433,12 @@ WRAP16_COST = {0: 670, 1: 1200, 2: 660, 3: 1100, 4: 440, 5: 530, 6: 1030, 7: 160
 WRAP16_KINDS = tuple(sorted(WRAP16_COST))
 
 
+MIX_COST = [110, 150, 40, 60, 40, 40, 300, 900, 300, 60, 40]
+
+
 def miri_cost_hint(w):
+    if w >= NW_MIX_FROM:
+        return MIX_COST[w - NW_MIX_FROM]
     if w >= NW_BASE:
         return HAMMER_COST[(w - NW_BASE) % 31] * 1.3
     if w >= 2 * MIRI_NOPS:
